@@ -7,8 +7,10 @@ import math
 import sys
 from fractions import Fraction
 
-sys.path.insert(0, "/repo")
-sys.path.insert(0, "/repo/sv")
+import os as _os
+REPO = _os.environ.get("VERIF_REPO", "/repo")  # scratch worktree for seeded-change runs; registered checks use /repo
+sys.path.insert(0, REPO)
+sys.path.insert(0, REPO + "/sv")
 
 import codec as C  # noqa: E402
 from codec import L, OpticalMap, Peak, AlignmentSegment, num, rat  # noqa: E402
